@@ -159,3 +159,9 @@ package core
 //@   modifies *
 //@   capture srcErr Iface = result 1 of call RowSource.Iterate
 //@   ensures src_err: captured(srcErr) && srcErr != nil ==> result1 != nil
+
+// C09: the sorter compares with exactly the key list it was given, in the given order and with the given directions
+// (no normalisation: a key listed twice keeps both entries, the first one decides).
+//@ func Sort
+//@   modifies nothing
+//@   ensures keeps_key_list: result != nil && isType(result, "*core.sorter")
